@@ -448,6 +448,8 @@ pub struct ScaleExec {
     // ---- chunker
     block: usize,
     nviol: usize,
+    /// the op being executed was announced as valid (`must`)
+    must: bool,
 }
 
 impl ScaleExec {
@@ -466,6 +468,7 @@ impl ScaleExec {
             codecs: 0,
             block: 0,
             nviol: 0,
+            must: false,
         }
     }
 
@@ -751,7 +754,8 @@ impl ScaleExec {
         let mut snap = c.drained.clone();
         snap.extend_from_slice(&stable);
         let (is_enc, failed, limits) = (c.is_enc, c.failed, c.limits);
-        let finishing = words == ["finish"] && !failed;
+        // (a codec built over a pre-filled iovec has more output than its input explains)
+        let finishing = words == ["finish"] && !failed && c.prefill.is_empty();
         let input: Vec<u8> = if finishing { c.logical_input.clone() } else { Vec::new() };
         let reference: Option<Vec<u8>> = if finishing && c.logical_input.len() <= (64 << 20) {
             if is_enc {
@@ -856,7 +860,16 @@ impl ScaleExec {
     }
 
     /// one op of the wrapped vocabulary (after macro expansion), or `scoped_panic`
-    fn step1(&mut self, ws: &[String]) -> StepOut {
+    fn step1(&mut self, ws0: &[String]) -> StepOut {
+        // `must <op …>`: a panic of this op is a violation (reported through `panic_violation`)
+        let ws: &[String] = if ws0.first().map(|s| s.as_str()) == Some("must") { &ws0[1..] } else { ws0 };
+        self.must = ws.len() != ws0.len();
+        let so = self.step1_inner(ws);
+        self.must = false;
+        so
+    }
+
+    fn step1_inner(&mut self, ws: &[String]) -> StepOut {
         let w: Vec<&str> = ws.iter().map(|s| s.as_str()).collect();
         if w.first().copied() == Some("scoped_panic") {
             return match w.as_slice() {
@@ -932,6 +945,12 @@ impl Exec for ScaleExec {
 
     fn panic_violation(&self, _w: &[&str]) -> Option<String> {
         let cur: Vec<&str> = self.current.iter().map(|s| s.as_str()).collect();
+        if self.must {
+            return Some(format!(
+                "C03 `{}` panicked although it is valid here (own pending placeholder, source of its size: no panic is specified)",
+                cur.join(" ")
+            ));
+        }
         self.inner.panic_violation(&cur)
     }
 
